@@ -315,11 +315,22 @@ def validate_sharded(module, cfg, trace_path, workdir, shards=None,
     result = {"events": sum(len(e[1]) for e in eps), "episodes": len(eps),
               "failures": [], "errors": [], "generated": 0}
 
+    # once enough rejected episodes have been collected over all shards the
+    # remaining ones are not diagnosed any further (a violating run should
+    # reach its verdict quickly; a passing run is unaffected)
+    import threading
+    total_lock = threading.Lock()
+    total = {"n": 0}
+    max_total = int(os.environ.get("VERIF_MAX_REJECTIONS", "16"))
+
     def work(gi):
         group = list(groups[gi])
         fails, errs, gen = [], [], 0
         rounds = 0
         while group and rounds <= max_failures:
+            with total_lock:
+                if total["n"] >= max_total:
+                    break
             rounds += 1
             p = os.path.join(workdir, "shard-%d-%d.ndjson" % (gi, rounds))
             with open(p, "w") as fp:
@@ -360,6 +371,8 @@ def validate_sharded(module, cfg, trace_path, workdir, shards=None,
             else:
                 idx = r1["matched"]
                 ev = lines[idx] if idx < len(lines) else ""
+                with total_lock:
+                    total["n"] += 1
                 fails.append({"lines": lines, "index": idx, "event": ev,
                               "mismatch": r1["mismatch"], "start": start,
                               "expected": r1.get("expected"),
